@@ -52,6 +52,13 @@ const c06Repeats = 6
 func c06Oracle(c *vlib.Case) *vlib.Violation {
 	first := ""
 	firstJSON := ""
+	orig := c.Project.Clone()
+	defer func() {
+		// restore the case (a build that modified its input must not poison the saved replay)
+		for n, b := range orig.Files {
+			c.Project.Files[n] = b
+		}
+	}()
 	repeats := c06Repeats
 	if vlib.Mode() == "replay" {
 		repeats = 40 // replays and known-finding probes must not pass by luck
@@ -62,6 +69,13 @@ func c06Oracle(c *vlib.Case) *vlib.Violation {
 		if b.Out.Crashed() {
 			b.Close()
 			return nil // C01's business
+		}
+		for n, src := range orig.Files {
+			if string(c.Project.Files[n]) != string(src) {
+				b.Close()
+				d := firstDiffPos(string(src), string(c.Project.Files[n]))
+				return vlib.V("c06:build-modifies-its-input", "build #%d changed the bytes of %s it was given (at byte %d: %s -> %s): later builds of the same file see another document", i, n, d, around(string(src), d), around(string(c.Project.Files[n]), d))
+			}
 		}
 		js := ""
 		if b.Out.OK() {
